@@ -6,6 +6,7 @@ import (
 	"fmt"
 	"go/token"
 	"go/types"
+	"sort"
 	"strings"
 
 	"golang.org/x/tools/go/ssa"
@@ -506,6 +507,9 @@ func checkC11(c *Check) {
 	// a cancelled run comes back: the container's handler and its wait goroutine cannot block on each other (C10.9)
 	importObs(c, "C10", "C10.9/no-circular-wait", "6/cancel-returns", nil)
 	c.Expect("6/cancel-returns", 2)
+
+	checkDeadlinesDisarmed(c, "7/deadlines-disarmed")
+	checkDestroyClosesSocket(c, "8/destroy-closes-socket")
 }
 
 // describeCmdKind renders the constant Cmd field of a cmd literal passed by value.
@@ -527,4 +531,113 @@ func describeCmdKind(v ssa.Value) string {
 		}
 	}
 	return describe(v)
+}
+
+// checkDeadlinesDisarmed: a deadline on the control socket is absolute and sticky — once it has passed every later
+// read or write fails at once, and the loops treat that as a lost connection. A host method that arms a deadline
+// disarms every direction it armed before it returns (deferred).
+func checkDeadlinesDisarmed(c *Check, rule string) {
+	p := c.P
+	kindsOf := func(name string) []string {
+		switch {
+		case strings.HasSuffix(name, ".SetDeadline"):
+			return []string{"read", "write"}
+		case strings.HasSuffix(name, ".SetReadDeadline"):
+			return []string{"read"}
+		case strings.HasSuffix(name, ".SetWriteDeadline"):
+			return []string{"write"}
+		}
+		return nil
+	}
+	n := 0
+	for _, fn := range p.PkgFuncs("container") {
+		armed, cleared := map[string]bool{}, map[string]bool{}
+		var armPos string
+		for _, f := range withClosures(fn) {
+			for _, ci := range callInstrs(f) {
+				name, _ := calleeOf(ci)
+				ks := kindsOf(name)
+				if ks == nil {
+					continue
+				}
+				args := ci.Common().Args
+				t := args[len(args)-1]
+				zero := false
+				if cst, ok := t.(*ssa.Const); ok && cst.Value == nil {
+					zero = true
+				}
+				_, isDefer := ci.(*ssa.Defer)
+				for _, k := range ks {
+					if zero {
+						// counts when it is deferred in the method itself, or made in a deferred closure
+						if isDefer || f != fn {
+							cleared[k] = true
+						}
+					} else {
+						armed[k] = true
+						armPos = p.Pos(ci.Pos())
+					}
+				}
+			}
+		}
+		if len(armed) == 0 || fn.Parent() != nil {
+			continue
+		}
+		n++
+		var missing []string
+		for k := range armed {
+			if !cleared[k] {
+				missing = append(missing, k)
+			}
+		}
+		sort.Strings(missing)
+		c.Cond(len(missing) == 0, rule, "container."+fn.Name()+":deadline", armPos, "every deadline armed is disarmed before the method returns",
+			"the "+strings.Join(missing, " and ")+" deadline armed here is still set when "+fn.Name()+" returns: once it has passed, the next command (the kill of a cancelled run included) fails with a timeout, the environment is torn down and the run is reported as a runner error")
+	}
+	if n == 0 {
+		c.Undecided(rule, "container:deadline", "-", "no method arms a deadline")
+	}
+	c.Expect(rule, 1)
+}
+
+// checkDestroyClosesSocket: Destroy aborts the call in flight by closing the socket — both directions, by itself.
+// The close it makes must reach the connection's own Close (not a shutdown of one direction that relies on the
+// container init to answer).
+func checkDestroyClosesSocket(c *Check, rule string) {
+	p := c.P
+	d := p.Func("container", "container.Destroy")
+	if d == nil {
+		c.Undecided(rule, "container.Destroy", "-", "function not found")
+		return
+	}
+	var closeCall ssa.CallInstruction
+	for _, ci := range callInstrs(d) {
+		name, _ := calleeOf(ci)
+		if strings.HasSuffix(name, ".Close") && len(ci.Common().Args) > 0 && strings.Contains(describe(ci.Common().Args[0]), "socket") {
+			closeCall = ci
+			break
+		}
+	}
+	if closeCall == nil {
+		c.Fail(rule, "container.Destroy:socket-close", p.Pos(d.Pos()), "Destroy does not close the control socket: a call in flight is not aborted")
+		c.Expect(rule, 1)
+		return
+	}
+	isConnClose := func(ci ssa.CallInstruction) bool {
+		n, _ := calleeOf(ci)
+		return n == "(net.conn).Close" || n == "(net.UnixConn).Close" || n == "syscall.Close" || n == "(os.File).Close"
+	}
+	name, callee := calleeOf(closeCall)
+	ok := isConnClose(closeCall)
+	if !ok && callee != nil && inModule(callee) {
+		// a wrapper of the module: every path through it must reach the connection's Close
+		skips, _ := pathQuery{fn: callee, target: isReturn, stop: func(in ssa.Instruction) bool {
+			ci, ok := in.(ssa.CallInstruction)
+			return ok && (isConnClose(ci) || instrReaches(in, 2, isConnClose))
+		}}.find()
+		ok = !skips
+	}
+	c.Cond(ok, rule, "container.Destroy:socket-close", p.Pos(closeCall.Pos()), "Destroy closes the connection itself",
+		"the close Destroy makes resolves to "+name+", which does not close the connection on every path (a half-close leaves the receive loop waiting for the container init: with the init stopped or busy the call in flight never returns and Destroy never reaches the kill)")
+	c.Expect(rule, 1)
 }
